@@ -4,7 +4,7 @@ CONSTANTS
   K = 4
   NF = 1
   NG = 1
-  PF = "pp2s"
+  PF = "pp2m"
   TF = "t22s"
   PG = "pp2s"
   TG = "t22ds"
